@@ -152,22 +152,16 @@ fn main() {
     let mut prof = GenProfile::standard(args.thorough);
     // deletes, updates (with and without payload: the payload-less ones share the superseded frame's bytes),
     // commits so that many vacuums start from a quiescent handle, many vacuums and doctor runs
-    // (not generated, because their own findings — recorded by the properties they belong to — would mask C42's
-    // clauses: skip-index commits leave the lexical index stale until the next rebuild (C40); finalize_indexes and
-    // process crashes (C01 / crash family: a crash right after WAL growth loses the sketch track); the fixed
-    // corpus below still has a crash after a vacuum.  Long WAL-filling histories force these ops, so none is run.)
-    // batch mode with WAL pre-sizing is left out too: growing the WAL without a commit afterwards loses the sketch track
-    // on the next open (defect of the C01 family, see the C42 report), whatever vacuum does.
-    prof.w_put = 34; prof.w_update = 18; prof.w_delete = 12; prof.w_commit = 14; prof.w_reopen = 6; prof.w_crash = 0; prof.w_readonly = 1;
-    prof.w_batch = 0; prof.w_skip = 0; prof.w_finalize = 0; prof.w_vacuum = 9; prof.w_doctor = 0; prof.w_ticket = 0;
+    // skip-index commits leave the lexical index stale until the next full rebuild (property C40's subject): the short
+    // histories do not draw them; the long ones do, and the oracle then compares only the index-independent reads
+    prof.w_put = 34; prof.w_update = 18; prof.w_delete = 12; prof.w_commit = 14; prof.w_reopen = 6; prof.w_crash = 2; prof.w_readonly = 1;
+    prof.w_batch = 2; prof.w_skip = 0; prof.w_finalize = 1; prof.w_vacuum = 9; prof.w_doctor = 3; prof.w_ticket = 0;
     prof.emb_percent = 25; prof.wrong_dim_percent = 1; prof.instant_index_percent = 10;
-    prof.n_short = if args.thorough { 100 } else { 18 };
+    prof.n_short = if args.thorough { 100 } else { 14 };
     prof.short_len = (12, 44);
-    prof.n_long = 0;
+    prof.n_long = if args.thorough { 6 } else { 1 };
     prof.corpus = corpus();
-    // the online generator never draws a doctor op (w_doctor = 0: a doctor run on an EMPTY memory is a known gap
-    // between the shared Core model and the doctor's probe, not a vacuum matter); doctor(vacuum) histories are
-    // generated here instead, offline, always on a memory that already holds committed frames
+    // histories centred on doctor(vacuum), generated offline (always on a memory that already holds committed frames)
     prof.corpus.extend(doctor_histories(args.seed, if args.thorough { 30 } else { 7 }, &prof));
     let cfg = FamilyConfig {
         property: "C42",
@@ -189,8 +183,17 @@ fn main() {
     let mut snap: Option<Reads> = None;
     let mut vacuumed = false;
     let mut copy_no: u64 = 0;
+    // a skip-index commit happened and no full lexical rebuild since (finalize / vacuum / doctor / open): the lexical
+    // index the snapshot was taken from is stale (C40's subject), the vacuum's rebuild legitimately changes answers
+    let mut lex_stale = false;
     let mut oracle = move |v: &mut StepView| -> Option<(String, String)> {
-        if v.index == 0 { snap = None; vacuumed = false; }
+        if v.index == 0 { snap = None; vacuumed = false; lex_stale = false; }
+        let stale_before = lex_stale;
+        match v.op {
+            Op::CommitSkip if v.ack.is_ok() => lex_stale = true,
+            Op::Finalize | Op::Vacuum | Op::Doctor { .. } | Op::Reopen | Op::Crash | Op::ReadOnly => lex_stale = false,
+            _ => {}
+        }
         let (b, a) = (v.before, v.after);
         let direct = matches!(v.op, Op::Vacuum);
         let via_doctor = matches!(v.op, Op::Doctor { vacuum: true, .. });
@@ -241,7 +244,11 @@ fn main() {
             let dim = vec_dim_of(a).or(vec_dim_of(b));
             let live = reads(v.world.mem(), dim);
             if res.is_none() && b_quiet {
-                if let Some(s) = &snap {
+                if let (Some(s), true) = (&snap, stale_before) {
+                    // only the index-independent reads are comparable
+                    v.world.branches.push("stale-lexical-index-before-vacuum".into());
+                    if s.timeline != live.timeline { let mut s2 = live.clone(); s2.timeline = s.timeline.clone(); res = reads_diff(&s2, &live, "before the vacuum", "after it"); }
+                } else if let Some(s) = &snap {
                     v.world.branches.push("reads-compared".into());
                     if live.search.iter().any(|r| r.as_ref().is_ok_and(|m| !m.is_empty())) { v.world.branches.push("search-hits-compared".into()); }
                     if live.vec.as_ref().is_some_and(|r| r.as_ref().is_ok_and(|m| !m.is_empty())) { v.world.branches.push("vec-hits-compared".into()); }
